@@ -135,18 +135,18 @@ Proof. split; [vm_compute; reflexivity | unfold CPYTHON_DEPTH, LIMIT; lia]. Qed.
 (** ---- the judge on the model *)
 Lemma model_judge k n :
   k <> KLamBlock -> n <= CPYTHON_DEPTH \/ LIMIT < n ->
-  judge (mkobs (Some n) 0 (model_ending (parse (uniform k n)))) = true.
+  judge (mkobs (Some n) 0 0 (model_ending (parse (uniform k n)))) = true.
 Proof.
   intros Hk [Hn | Hn].
   - pose proof (shallow_uniform k n Hk Hn) as H. unfold clean in H.
-    unfold judge, model_ending, Known_C09. cbn [o_end o_nest o_cols].
+    unfold judge, model_ending, Known_C09, Known_indent, Known_chain. cbn [o_end o_nest o_cols o_chain].
     destruct (fst (parse (uniform k n))); try discriminate.
     apply negb_true_iff in H. rewrite H.
     assert (Hle : Nat.leb n CPYTHON_DEPTH = true) by (apply Nat.leb_le; assumption).
     assert (Hlt : Nat.ltb LIMIT n = false) by (apply Nat.ltb_ge; unfold CPYTHON_DEPTH, LIMIT in *; lia).
     rewrite Hle, Hlt. reflexivity.
   - pose proof (deep_parse k n Hk ltac:(lia)) as H. unfold reports in H.
-    unfold judge, model_ending, Known_C09. cbn [o_end o_nest o_cols].
+    unfold judge, model_ending, Known_C09, Known_indent, Known_chain. cbn [o_end o_nest o_cols o_chain].
     assert (Hle : Nat.leb n CPYTHON_DEPTH = false) by (apply Nat.leb_gt; unfold CPYTHON_DEPTH, LIMIT in *; lia).
     assert (Hlt : Nat.ltb LIMIT n = true) by (apply Nat.ltb_lt; assumption).
     rewrite Hle, Hlt.
